@@ -313,7 +313,7 @@ func init() {
 
 func init() {
 	register(&Rule{
-		ID: "C13.R9", Props: []string{"C13", "C14"}, Min: 5, // C14: the attribute is emitted with the value's string form, not with source text
+		ID: "C13.R9", Props: []string{"C13", "C14", "C05"}, Min: 5, // C14: the attribute is emitted with the value's string form, not with source text
 		Doc: "a bound attribute's value is always computed by an evaluator: no return of evalBoundAttribute hands back the expression's own text (the parameter, or a piece cut out of it by slicing / trimming) — every non-empty result comes out of the interpolator, the object-literal evaluator, the pipe interpreter or the scope resolver, which are the ones every other position uses. A syntactic shortcut that answers from the source text (`'a' + x + 'b'` looks like one quoted literal) makes the same expression mean something else in an attribute than in {{ }} or v-if",
 		Run: func(p *Prog, c *Ctx) {
 			for _, fn := range []*ssa.Function{p.MustFn("(*vuego.Vue).evalBoundAttribute")} {
